@@ -252,6 +252,12 @@ func c07Strata() []*gast.Grammar {
 		mk(r("A", gast.Rec(gast.Ref("B"), gast.Ref("R"), "L1")), r("B", gast.S(gast.L("x"), gast.Ref("C"))), r("C", gast.Thr("L1")), r("R", gast.Ref("C"))),
 		mk(r("Stmt", gast.Rec(gast.S(gast.Ref("Expr"), gast.L(";")), gast.Ref("Resync"), "L1")), r("Expr", gast.C(gast.Plus(gast.Cl(gast.Chars("01"))), gast.Thr("L1"))),
 			r("Resync", gast.S(gast.Star(gast.Cl(&gast.ClassSpec{Chars: []rune(";01"), Inverted: true})), gast.Ref("Stmt")))),
+		// a throw that is not the last item of its sequence, recovered by an expression that can match
+		// the empty string: the rule is re-entered at the same offset
+		mk(r("Start", gast.Rec(gast.Ref("List"), gast.Ref("Junk"), "L1")), r("List", gast.C(gast.S(gast.Ref("Item"), gast.Ref("List")), gast.NotE(gast.Dot()), gast.S(gast.Thr("L1"), gast.Ref("List")))),
+			r("Item", gast.Cl(gast.Chars("ab"))), r("Junk", gast.Star(gast.Cl(gast.Chars("01"))))),
+		// an alternative that matches only sometimes (a rule holding a predicate) before the left-recursive one
+		mk(r("List", gast.C(gast.Ref("AtEnd"), gast.S(gast.Ref("List"), gast.Ref("Item")), gast.Ref("Item"))), r("AtEnd", gast.AndE(gast.L("."))), r("Item", gast.Cl(gast.Chars("ab")))),
 		mk(r("S", gast.S(gast.Opt(gast.S(gast.Ref("N"), gast.Ref("S"))), gast.L("x"))), r("N", gast.Opt(gast.L("a")))),
 		mk(r("S", gast.S(gast.Star(gast.S(gast.Ref("N"), gast.Ref("S"), gast.L("y"))), gast.L("x"))), r("N", gast.Opt(gast.L("a")))),
 	}
